@@ -1,10 +1,19 @@
-(* Python's repr() of ASCII str objects, of lists of pairs of str, as used by the cache key
+(* Python's repr() of str objects, of lists of pairs of str, as used by the cache key
    (lark/lark.py: s = repr((grammar, options_items, __version__, sys.version_info[:2]))).
-   Definitions only.  Faithful for code points < 128 (CPython unicode_repr: quote choice, backslash
-   escapes, \t \n \r, \xNN for other control characters and DEL); code points >= 128 depend on the
-   Unicode database and are outside the model (the harness keeps the byte-level tie on ASCII). *)
-From Coq Require Import List Ascii String Bool Arith.
-From LV Require Import Cache.Bytes.
+   Definitions only.
+
+   A Python str is represented by its UTF-8 encoding (errors='surrogatepass': a lone surrogate is the three-byte
+   sequence of its code point), so the byte string computed here is exactly s.encode('utf8'), the input of sha256.
+   CPython unicode_repr, per code point:
+     quote: double quotes iff the string has a single quote and no double quote;
+     the quote and the backslash: backslash-escaped;  TAB LF CR: \t \n \r;
+     other code points below 32, and 127: \xNN;  other ASCII: verbatim;
+     code points >= 128: verbatim if str.isprintable (Gen/Printable.v, regenerated from the running interpreter),
+     else \xNN (up to 255), \uNNNN (up to 65535), \UNNNNNNNN; hex digits in lower case.
+   A byte >= 128 that does not start a well-formed sequence (no str has such an encoding) is copied, which keeps the
+   function injective on all byte strings. *)
+From Coq Require Import List Ascii String Bool Arith NArith.
+From LV Require Import Cache.Bytes Gen.Printable.
 Import ListNotations.
 
 Definition squote : ascii := "'"%char.
@@ -26,7 +35,97 @@ Definition esc (q c : ascii) : bytes :=
        if (n <? 32) || (127 <=? n) then [bslash; "x"%char; hexd (n / 16); hexd (n mod 16)]
        else [c].
 
-Definition body (q : ascii) (s : bytes) : bytes := flat_map (esc q) s.
+(* ---- code points >= 128: UTF-8 (Unicode Table 3-7, plus surrogates) ------------------------------------ *)
+(* a continuation byte 10xxxxxx: its payload and the rest *)
+Definition cont (r : bytes) : option (N * bytes) :=
+  match r with
+  | c :: r' => let n := N_of_ascii c in
+               if (128 <=? n)%N && (n <? 192)%N then Some ((n - 128)%N, r') else None
+  | [] => None
+  end.
+
+(* the code point of the well-formed sequence that starts with the lead byte c and continues in r, and the number
+   of continuation bytes; None: c does not start a well-formed sequence (overlong forms and values above 10FFFF
+   are ill-formed) *)
+Definition utf8_lead (c : ascii) (r : bytes) : option (N * nat) :=
+  let n := N_of_ascii c in
+  if (194 <=? n)%N && (n <? 224)%N then
+    match cont r with
+    | Some (x, _) => Some (((n - 192) * 64 + x)%N, 1)
+    | None => None
+    end
+  else if (224 <=? n)%N && (n <? 240)%N then
+    match cont r with
+    | Some (x, r1) =>
+        match cont r1 with
+        | Some (y, _) => let cp := ((n - 224) * 4096 + x * 64 + y)%N in
+                         if (2048 <=? cp)%N then Some (cp, 2) else None
+        | None => None
+        end
+    | None => None
+    end
+  else if (240 <=? n)%N && (n <? 245)%N then
+    match cont r with
+    | Some (x, r1) =>
+        match cont r1 with
+        | Some (y, r2) =>
+            match cont r2 with
+            | Some (z, _) => let cp := ((n - 240) * 262144 + x * 4096 + y * 64 + z)%N in
+                             if (65536 <=? cp)%N && (cp <=? 1114111)%N then Some (cp, 3) else None
+            | None => None
+            end
+        | None => None
+        end
+    | None => None
+    end
+  else None.
+
+(* w lower-case hex digits, most significant first *)
+Fixpoint hexw (w : nat) (n : N) : bytes :=
+  match w with
+  | O => []
+  | S w' => hexw w' (n / 16)%N ++ [hexd (N.to_nat (n mod 16)%N)]
+  end.
+
+(* escape of a non-printable code point >= 128 (for code points below 256 this is esc: \xNN) *)
+Definition uesc (q : ascii) (cp : N) : bytes :=
+  if (cp <? 256)%N then esc q (ascii_of_N cp)
+  else if (cp <? 65536)%N then bslash :: "u"%char :: hexw 4 cp
+  else bslash :: "U"%char :: hexw 8 cp.
+
+(* the units repr() works on *)
+Inductive tok :=
+| TA (c : ascii)                 (* an ASCII character *)
+| TR (c : ascii)                 (* a byte >= 128 that is copied: part of a printable character (or ill-formed) *)
+| TN (cp : N) (raw : bytes).     (* a non-printable character >= 128 and its encoding *)
+
+(* skip: continuation bytes of an escaped character still to be dropped *)
+Fixpoint toks (skip : nat) (s : bytes) : list tok :=
+  match s with
+  | [] => []
+  | c :: r =>
+      match skip with
+      | S k => toks k r
+      | O => if (N_of_ascii c <? 128)%N then TA c :: toks 0 r
+             else match utf8_lead c r with
+                  | Some (cp, k) => if printable cp then TR c :: toks 0 r
+                                    else TN cp (c :: firstn k r) :: toks k r
+                  | None => TR c :: toks 0 r
+                  end
+      end
+  end.
+
+Definition etok (q : ascii) (t : tok) : bytes :=
+  match t with
+  | TA c => esc q c
+  | TR c => [c]
+  | TN cp _ => uesc q cp
+  end.
+
+Definition raw_of (t : tok) : bytes :=
+  match t with TA c => [c] | TR c => [c] | TN _ raw => raw end.
+
+Definition body (q : ascii) (s : bytes) : bytes := flat_map (etok q) (toks 0 s).
 
 Definition srepr (s : bytes) : bytes :=
   let q := quote_of s in q :: body q s ++ [q].
